@@ -72,6 +72,73 @@ theorem deliver_binds_value (s : State) (p : FId) (fp : Fiber) (l : Nat) (k : Tm
   unfold State.setFiber State.fiber?
   simp [hp]
 
+/-- ★ The first resume value reaches the fiber function unchanged, for every signature shape `fiber/new` accepts
+    (no parameters, required, `&opt`, `& rest`, `&keys`, combinations): with at least one positional parameter — required
+    OR optional — parameter 0 is exactly `v` (nil included); with only a collector, `& rest` receives `(v)`; every other
+    positional parameter keeps its default nil; the number of slots is that of the signature.  Mentions the regenerated
+    `firstValueUsesArity`: with `min_arity` in place of `arity` in janet_continue_no_check the first conjunct is false for
+    `(fn [&opt x] …)` and this proof does not check. -/
+theorem first_resume_value_bound (sg : Sig) (v : Val) :
+    (0 < sg.arity → (firstParams sg v)[0]? = some v) ∧
+    (sg.arity = 0 → sg.rest ≠ 0 → v ≠ .nil → (firstParams sg v)[0]? = some (.single v)) ∧
+    (firstParams sg v).length = sg.arity + (if sg.rest = 0 then 0 else 1) ∧
+    (∀ i, 0 < i → i < sg.arity → (firstParams sg v)[i]? = some .nil) := by
+  have hlen : (baseParams sg).length = sg.arity + (if sg.rest = 0 then 0 else 1) := by
+    unfold baseParams
+    by_cases h0 : sg.rest = 0
+    · simp [h0]
+    · by_cases h1 : sg.rest = 1 <;> simp [h0, h1]
+  have hget : ∀ i, i < sg.arity → (baseParams sg)[i]? = some Val.nil := by
+    intro i hi
+    unfold baseParams
+    rw [List.getElem?_append_left (by simpa using hi)]; simp [hi]
+  refine ⟨?_, ?_, ?_, ?_⟩
+  · intro ha
+    unfold firstParams
+    simp only [firstValueUsesArity, if_true]
+    by_cases hv : v = .nil
+    · subst hv; simp only [if_true]; exact hget 0 ha
+    · simp only [hv, if_false, ha, if_true]
+      rw [List.getElem?_set_self (by rw [hlen]; omega)]
+  · intro ha hr hv
+    unfold firstParams
+    simp only [firstValueUsesArity, if_true, hv, if_false, ha, Nat.lt_irrefl, ne_eq, hr, not_false_eq_true]
+    rw [List.getElem?_set_self (by rw [hlen]; simp [hr])]
+  · unfold firstParams
+    simp only [firstValueUsesArity, if_true]
+    split
+    · exact hlen
+    · split
+      · rw [List.length_set]; exact hlen
+      · split
+        · rw [List.length_set, hlen]; simp_all
+        · exact hlen
+  · intro i hi hia
+    unfold firstParams
+    simp only [firstValueUsesArity, if_true]
+    split
+    · exact hget i hia
+    · split
+      · rw [List.getElem?_set_ne (by omega)]; exact hget i hia
+      · split
+        · rw [List.getElem?_set_ne (by omega)]; exact hget i hia
+        · exact hget i hia
+
+/-- … and that is what the machine does at a new fiber's first resume: its environment is extended by exactly these slots -/
+theorem first_resume_enters (s : State) (stk : List FId) (f : FId) (ff : Fiber) (v : Val) (t : Tm)
+    (hlen : f < s.fibers.length) (hpend : ff.pending = none) (hctl : ff.ctl = .run t) :
+    ((startRun s stk f ff v).fiber? f).map (·.env) = some (ff.env ++ firstParams ff.sig v) := by
+  unfold startRun
+  simp only [hpend, hctl]
+  unfold State.setFiber State.fiber?
+  simp [hlen]
+
+example : firstParams { arity := 1, minArity := 0 } (.int 7) = [.int 7] := by decide
+example : firstParams { arity := 1, minArity := 0, rest := 1 } (.int 7) = [.int 7, .unit] := by decide
+example : firstParams { arity := 0, minArity := 0, rest := 1 } (.int 7) = [.single (.int 7)] := by decide
+example : firstParams { arity := 0, minArity := 0, rest := 2 } .nil = [.estruct] := by decide
+example : firstParams {} (.int 7) = [] := by decide
+
 /-! ## signals: nearest accepting fiber, and no other -/
 
 /-- The signal `(sig, v)` raised by `c` passes the callers `pre` (innermost first): each is blocked, not inside a
